@@ -334,6 +334,19 @@ def filter_params_guard(ctx: Ctx):
         if "is_filter" in txt:
             cands.append((conds, exc, node))
     if not cands:
+        # the loop body may have been moved into a helper: look for the guard in the private helpers this function calls
+        import ast as _ast
+
+        called = {n.func.id for n in _ast.walk(prog.funcs[q].node) if isinstance(n, _ast.Call) and isinstance(n.func, _ast.Name)}
+        module = q.rsplit(".", 1)[0]
+        for name in sorted(called):
+            hq = f"{module}.{name}"
+            if hq in prog.funcs and prog.funcs[hq].parent is None:
+                hfr = prog.frame(hq)
+                if any("is_filter" in " ".join(show(c) for c in conds_) or "filter" in show(e_).lower() for conds_, e_, _n in hfr.raises):
+                    ctx.undecided("G:filter-with-parameters:guard", f"the guard was moved into the helper {hq}; it is not evaluated there", where)
+                    return
+    if not cands:
         ctx.ob("G:filter-with-parameters:guard-exists", False, where,
                "no raise in _get_internal_functions depends on the function being a filter: filters with parameters are "
                "no longer rejected at build time")
